@@ -18,6 +18,7 @@ PROPS = {
              ">= 10 calls in one test, >= 2 entry kinds in one file, a structured Go value, or pre-existing entries; distinct = distinct canonical JSON",
         assumptions=ASSUME_WB + ["carriage return at the end of a line (documented limitation) is excluded by construction and counted"],
         stages=[dict(name="replay", run="^TestC01_", quick=1000, thorough=6000, shards_quick=4, shards_thorough=16),
+                dict(name="cross_build_replay", engine="bb", run="^TestC01BB_", quick=40, thorough=600, shards_quick=4, shards_thorough=16, trimpath=True),
                 dict(name="fuzz", engine="fuzz", target="FuzzC01Store", run="FuzzC01Store", fuzztime=60, thorough_only=True)],
     ),
     "C02": dict(
@@ -193,6 +194,7 @@ PROPS = {
                                  "a race report is always a real race; absence is limited to the executed accesses"],
         stages=[
             dict(name="differential", run="^TestC12_", quick=800, thorough=10000, shards_quick=4, shards_thorough=16),
+            dict(name="test_order", engine="bb", run="^TestC12BB_", quick=40, thorough=600, shards_quick=4, shards_thorough=16, trimpath=True),
             dict(name="race", engine="race", run="^TestC12Race_", quick=100, thorough=1500, shards_quick=2, shards_thorough=8, expect_race_free=True),
         ],
     ),
